@@ -74,7 +74,7 @@ func vCheckDelivered(got []vGot, msgs []vTold, fed []int, frags []vFrag) {
 	}
 }
 
-//verif: sched=coop unwind=24 cover=delivered,two-delivered bounds="fragswarm: source A tells 2 messages (2 and 3 bytes), source B tells 1 (2 bytes), symbolic contents, inner MTU 16 (1 byte per fragment, 7 fragments); receiver is fed 5 (quick) / 6 (thorough) fragments chosen with repetition and omission in every order"
+// verif: sched=coop unwind=24 cover=delivered,two-delivered bounds="fragswarm: source A tells 2 messages (2 and 3 bytes), source B tells 1 (2 bytes), symbolic contents, inner MTU 16 (1 byte per fragment, 7 fragments); receiver is fed 5 (quick) / 6 (thorough) fragments chosen with repetition and omission in every order"
 func VH_C10_fragReassembly() bool {
 	msgs := []vTold{{src: 1, payload: vBytesN(2)}, {src: 1, payload: vBytesN(3)}, {src: 2, payload: vBytesN(2)}}
 	frags, ok := vTellAll(16, msgs)
@@ -108,7 +108,7 @@ func VH_C10_fragReassembly() bool {
 	return true
 }
 
-//verif: sched=coop unwind=24 cover=delivered bounds="fragswarm round trip: one message of 0..4 symbolic bytes told as 2 iovec chunks over inner MTU 16..18 (1..3 payload bytes per fragment), all fragments delivered in every order: exactly one delivery, payload, source and destination intact, sender buffer untouched"
+// verif: sched=coop unwind=24 cover=delivered bounds="fragswarm round trip: one message of 0..4 symbolic bytes told as 2 iovec chunks over inner MTU 16..18 (1..3 payload bytes per fragment), all fragments delivered in every order: exactly one delivery, payload, source and destination intact, sender buffer untouched"
 func VH_C01_fragRoundTrip() bool {
 	imtu := vInt(16, 18)
 	msgs := []vTold{{src: 1, payload: vBytes(4)}}
